@@ -1,5 +1,4 @@
 import EncodingRs.Thm.C10Enc
-import EncodingRs.Thm.C02Life
 import EncodingRs.Lemmas.LifeLeaf
 import EncodingRs.Lemmas.PotMono
 /-!
@@ -24,9 +23,8 @@ after `EF` (a lead byte there: rank 1).  Here:
   state is entered only by `afterTwo` — from `init` through `EF` — and re-entered only by an
   `OutputFull` answer to the replay of `BB`, which leaves the state or flushes it).
 * `DHistFull` = `DHist` without the side condition; **`dhist_full_eq_dref`**,
-  **`new_decoder_history_full`**, `dhist_full_tag`, **`dhistory_eq_dref''`**, and (C02)
-  **`decoder_histories_agree_full`** / `decoder_text_agree_full`: for histories from `Decoder.new`
-  no side condition is left.
+  **`new_decoder_history_full`**, `dhist_full_tag`, **`dhistory_eq_dref''`**: for histories from
+  `Decoder.new` no side condition is left.  (C02: `decoder_histories_agree_full` in Thm/C02Full.lean.)
 -/
 namespace EncodingRs.Thm.C10
 open EncodingRs EncodingRs.Model EncodingRs.Lemmas.Core EncodingRs.Lemmas.FamLaws EncodingRs.Lemmas.Life
@@ -596,34 +594,3 @@ example : big5Fam.rank (some 0x6E : Option Nat) = 1 ∧ PendInv dB3 ∧ ReplayBB
 end demo
 
 end EncodingRs.Thm.C10
-
-namespace EncodingRs.Thm.C02
-open EncodingRs EncodingRs.Model EncodingRs.Lemmas.Life EncodingRs.Thm.C10
-
-/-- **C02 for the `Decoder`, no side condition**: two histories (`DHistFull`: any cuts incl. inside
-the potential BOM, any stop policies, sink per call) over the same stream from a decoder as made by
-`new_decoder` / `new_decoder_with_bom_removal` / `new_decoder_without_bom_handling` agree on the
-events and on the final `encoding()`; both are the documented ones (`dref`, `drefTag`). -/
-theorem decoder_histories_agree_full (v : Gen.Variant) (nom : Nominal) (bom : BomHandling) (stream : List Nat)
-    (e₁ e₂ : List Ev) (d₁ d₂ : Decoder (famOfVariant v))
-    (h₁ : DHistFull (Decoder.new (famOfVariant v) nom bom) 0 stream e₁ d₁)
-    (h₂ : DHistFull (Decoder.new (famOfVariant v) nom bom) 0 stream e₂ d₂) :
-    e₁ = e₂ ∧ curTag d₁.cur = curTag d₂.cur ∧
-    e₁ = dref (Decoder.new (famOfVariant v) nom bom) stream 0 ∧
-    curTag d₁.cur = drefTag (Decoder.new (famOfVariant v) nom bom) stream := by
-  have a₁ := new_decoder_history_full v nom bom stream e₁ d₁ h₁
-  have a₂ := new_decoder_history_full v nom bom stream e₂ d₂ h₂
-  have t₁ := dhist_full_tag _ 0 stream e₁ d₁ h₁
-  have t₂ := dhist_full_tag _ 0 stream e₂ d₂ h₂
-  exact ⟨a₁.trans a₂.symm, t₁.trans t₂.symm, a₁, t₁⟩
-
-/-- text and had-errors answer, no side condition -/
-theorem decoder_text_agree_full (v : Gen.Variant) (nom : Nominal) (bom : BomHandling) (stream : List Nat)
-    (e₁ e₂ : List Ev) (d₁ d₂ : Decoder (famOfVariant v))
-    (h₁ : DHistFull (Decoder.new (famOfVariant v) nom bom) 0 stream e₁ d₁)
-    (h₂ : DHistFull (Decoder.new (famOfVariant v) nom bom) 0 stream e₂ d₂) (repl : Bool) :
-    textOf repl e₁ = textOf repl e₂ ∧ hadErrors e₁ = hadErrors e₂ := by
-  rw [(decoder_histories_agree_full v nom bom stream e₁ e₂ d₁ d₂ h₁ h₂).1]
-  exact ⟨rfl, rfl⟩
-
-end EncodingRs.Thm.C02
